@@ -500,7 +500,8 @@ def _run(ctx):
         desc = {'wl': 'two-index', 'fn': 'xy_seq', 'mns': mns[:10], 'k': k, 'x': label, 'mode': mode, 'class': f'xy_seq:{label}'}
         ctx.case(desc, nontrivial=max(a + b for a, b in mns) >= 1)
         call(ctx, P, 'xy_seq', desc, mns, x, y, cartesian_grid=cart)
-    if ctx.quick or True:
+    # both tiers enumerate the subsets of {0..6} exhaustively (the thorough tier adds lists and shape classes)
+    if True:
         ctx.exhaustive = True
         ctx.note('exhaustive', 'every non-empty ascending subset of {0..6} x every coordinate-shape class x every one-index *_seq routine; '
                                'the remaining lists and the two-index families are sampled')
